@@ -264,6 +264,20 @@ CLAIMED["C46"] = (
     "DESIGN.md section 6 C46",
 )
 
+CLAIMED["C12"] = (
+    "Tpfa.discretize is executed on symbolic cell-wise permeability (full SPD, diagonal, constant), symbolic "
+    "tensor-grid spacings and a symbolic linear pressure field for enumerated boundary-type assignments on a "
+    "1-d grid, a 2x2 Cartesian grid and a 2-triangle grid. z3 decides: div*flux symmetric, interior face "
+    "fluxes single-valued (row sums vanish), constant pressure with matching Dirichlet data gives zero flux "
+    "on every face; for diagonal permeability positive diagonal and non-positive off-diagonals; for constant "
+    "permeability flux*p + bound_flux*p_b equals the exact Darcy flux of a linear pressure on every face with "
+    "mixed Dirichlet/Neumann data. The MPFA-agreement clause is outside (MPFA is not encodable).",
+    "Floats as exact reals; topology and boundary assignments enumerated (4 per topology quick, 16 thorough); "
+    "tensor-grid geometry assigned analytically from (dx, dy); 2-d only.",
+    "symbolic execution of Tpfa.discretize on z3 terms + SMT (rational arithmetic)",
+    "DESIGN.md section 6 C12",
+)
+
 NOT_APPLICABLE = {
     "C11": "MPFA local systems are inverted in LAPACK/numba kernels on data-dependent block structures; a symbolic inverse of the interaction-region blocks is beyond z3/cvc5 and with concrete matrices nothing quantified remains for a solver.",
     "C13": "MPSA: same obstacle as C11 with 2-3x larger local systems.",
